@@ -170,6 +170,16 @@ def run(chk, w):
                 chk.ok("C01-ACC", 1)
     chk.floor("send_state_accesses", n, 60)
     callback_rule(chk, w, roles, db, "C01-ACC")
+    # ---- PRIV (shared with C05 / C18): the message a packet is built from is assembled in storage private to the call
+    from . import c05 as _c05
+    from .. import sendapi as _sendapi
+    try:
+        _S = _sendapi.SendAPI(w)
+        _wire = _c05.wire_append_fns(P, w)
+        if _wire and _S.constructors:
+            _c05.priv_rule(chk, P, sorted(_S.constructors), _wire, "C01-PRIV")
+    except AnalysisBroken as e:
+        chk.abstain("C01-PRIV", "constructors / wire append not identified: %s" % e, "-")
 
     # ---- TAB
     chk.rule("C01-TAB", "bidib_crc_array equals the CRC-8 table for x^8+x^5+x^4+1 (reflected, 0x8C) and is the only table indexed for CRC")
